@@ -517,6 +517,10 @@ Definition commit (p : pc) : option (nat * Z * option Z) :=
   | _ => None
   end.
 
+(* the job record after a finishing event: status st, done = nil, result tag r, error flag e *)
+Definition fin_job (j : job) (st r : Z) (e : bool) : job :=
+  mkJob (jid j) st Nil r e (jfrags j) (jorph j).
+
 (* Task: the window between the duplicate check (RLock) and the insert (Lock) *)
 Definition in_window (p : pc) : option Z :=
   match p with PTask2 id _ => Some id | PTask3 id => Some id | _ => None end.
